@@ -56,6 +56,8 @@ type saveResult struct {
 	committed bool
 	valid     bool
 	sink      *recvSink
+	saved     bool   // Save returned a snapshot record
+	synced    uint64 // on-disk: conHooks.syncedLast right after Save returned
 	panicVal  interface{}
 	stack     string
 }
@@ -65,6 +67,7 @@ type conState struct {
 	idle       bool
 	updParked  bool
 	parkedN    int
+	nodeParked bool
 	saveParked bool
 	saverDone  bool
 	res        *saveResult
@@ -87,6 +90,7 @@ type conRun struct {
 	st           conState
 	stackBuf     []byte
 	saverStarted bool
+	syncTasks    int
 	stopped      bool
 	cleaned      bool
 }
@@ -178,6 +182,8 @@ func (cr *conRun) doSave(res *saveResult) {
 		inc.snap.beforeSave = cr.h.parkSave
 	}
 	ss, env, err := inc.sm.Save(cr.req)
+	res.synced = atomic.LoadUint64(&cr.h.syncedLast)
+	res.saved = err == nil
 	inc.snap.beforeSave = nil
 	if err != nil {
 		switch {
@@ -233,6 +239,8 @@ func (cr *conRun) note(ev conEvent) {
 	case evUpdParked:
 		cr.st.updParked = true
 		cr.st.parkedN = ev.n
+	case evNodeParked:
+		cr.st.nodeParked = true
 	case evSaveParked:
 		cr.st.saveParked = true
 	case evSaverDone:
@@ -316,6 +324,11 @@ func (cr *conRun) feed(ents []pb.Entry, upTo uint64, label string) {
 			k = len(tasks)
 		}
 		for _, tk := range tasks[:k] {
+			if cr.a.store != nil && rapid.IntRange(0, 4).Draw(cr.t, label+"Sync") == 0 {
+				// the node's sync timer fired (node.runSyncTask)
+				cr.a.addSync()
+				cr.syncTasks++
+			}
 			cr.a.add(tk)
 		}
 		tasks = tasks[k:]
@@ -396,6 +409,8 @@ type conCase struct {
 	hold         bool
 	parkUpdate   bool
 	prepWait     bool
+	parkAfter    bool   // the apply worker is held in the node callback of p (task unfinished, no lock held)
+	syncPlan     string // on-disk: "", "sync-before-request", "sync-after-request": the periodic sync catches up right before p's task
 	req          rsm.SSRequest
 	// what happened
 	mode               string
@@ -403,6 +418,12 @@ type conCase struct {
 	parkedBatch        int
 	startedWhileParked bool
 	sawBlocked         bool
+	nodeParked         bool   // the apply worker was held between two entries of p's task
+	pTaskBatched       bool   // p's task goes through the batched update path
+	pTaskLen, pPos     int    // size of p's task, position of p in it (1-based)
+	savedMidTask       bool   // the worker prepared and wrote the snapshot while the apply worker was held mid-task
+	syncedEqApplied    bool   // syncedIndex == lastApplied when the worker was started with the apply worker parked
+	syncTasks          int
 	lo, hi             uint64 // the snapshot index has to lie in [lo, hi]
 	racedTo            uint64 // index A had applied when the worker was let go
 	res                *saveResult
@@ -569,6 +590,15 @@ func genConCase(t *rapid.T, fl conFlavour) *conCase {
 			cc.p = uint64(last)
 		}
 	}
+	if cc.kind == kOnDisk && cc.p > 0 && rapid.Bool().Draw(t, "mixedTask") {
+		// something that is not a NoOP-session update next to p: the task that
+		// contains both does not take the batched update path
+		f := normal
+		f.wNoop, f.wEmpty, f.ccW = 0, 10, 10
+		g.o = f
+		cc.genStep(t, 0)
+		g.o = normal
+	}
 	// what follows closely: retries of the proposals around p, membership changes
 	near := normal
 	near.wDupCur = 40
@@ -614,6 +644,23 @@ func genConCase(t *rapid.T, fl conFlavour) *conCase {
 		cc.hold = rapid.Bool().Draw(t, "hold")
 	}
 	cc.prepWait = rapid.IntRange(0, 3).Draw(t, "prepWait") > 0
+	if cc.p > 0 {
+		cc.parkAfter = rapid.IntRange(0, 2).Draw(t, "parkAfter") > 0
+	}
+	if cc.kind == kOnDisk && cc.p > 0 {
+		cc.syncPlan = []string{"", "sync-before-request", "sync-after-request"}[rapid.IntRange(0, 2).Draw(t, "syncPlan")]
+		if cc.syncPlan != "" {
+			// the point of the plan is a Save in the middle of p's task
+			cc.parkAfter, cc.hold = true, false
+		}
+		if cc.syncPlan != "" && cc.b == cc.p && cc.p < cc.n {
+			// p is not the last entry of its task
+			cc.b++
+			if cc.b+uint64(cc.k) > cc.n {
+				cc.k = int(cc.n - cc.b)
+			}
+		}
+	}
 	switch cc.kind {
 	case kConcurrent:
 		cc.variant = []string{"restart", "install"}[rapid.IntRange(0, 1).Draw(t, "variant")]
@@ -621,7 +668,7 @@ func genConCase(t *rapid.T, fl conFlavour) *conCase {
 			cc.req.Type = rsm.UserRequested
 		}
 	case kOnDisk:
-		cc.variant = []string{"stream", "stream", "restart"}[rapid.IntRange(0, 2).Draw(t, "variant")]
+		cc.variant = []string{"stream", "restart"}[rapid.IntRange(0, 1).Draw(t, "variant")]
 	}
 	tr.variant = cc.variant
 	return cc
@@ -652,18 +699,54 @@ func (cc *conCase) runA(t *rapid.T) {
 
 	cr.feed(ents, cc.a, "pre")
 	// the request, with entries already queued behind it
+	if cc.syncPlan == "sync-before-request" {
+		a.addSync()
+		cr.syncTasks++
+	}
 	if cr.stream {
 		a.cur.sm.TaskQ().Add(rsm.Task{Stream: true, ShardID: cc.env.cfg.ShardID, ReplicaID: cr.target.replicaID})
 	} else {
 		a.addSave(cc.req)
 	}
+	if cc.syncPlan == "sync-after-request" {
+		a.addSync()
+		cr.syncTasks++
+	}
 	if cc.b > cc.a {
-		for _, tk := range chunks(t, ents[cc.a:cc.b], 8, "midTask") {
+		var mid [][]pb.Entry
+		if cc.syncPlan != "" {
+			// one task: lastApplied stays where the periodic sync found it until
+			// the whole task has been applied
+			mid = [][]pb.Entry{ents[cc.a:cc.b]}
+		} else {
+			mid = chunks(t, ents[cc.a:cc.b], 8, "midTask")
+		}
+		for _, tk := range mid {
+			if cc.syncPlan == "" && a.store != nil && rapid.IntRange(0, 4).Draw(t, "midSync") == 0 {
+				a.addSync()
+				cr.syncTasks++
+			}
 			a.add(tk)
+			if cc.p >= tk[0].Index && cc.p <= tk[len(tk)-1].Index {
+				// rsm.getEntryTypes: the batched path holds the write lock across the
+				// node callbacks, nothing can be parked there
+				allUpdate, allNoOP := true, true
+				for i := range tk {
+					allUpdate = allUpdate && tk[i].IsUpdateEntry()
+					allNoOP = allNoOP && tk[i].IsNoOPSession()
+				}
+				cc.pTaskBatched = allUpdate && allNoOP
+				cc.pTaskLen, cc.pPos = len(tk), int(cc.p-tk[0].Index)+1
+			}
 		}
 	}
 	if cc.parkUpdate {
 		atomic.StoreUint64(&h.parkIndex, cc.p)
+	}
+	if cc.parkAfter && cc.pTaskLen > 0 && !cc.pTaskBatched {
+		atomic.StoreUint64(&h.nodeParkAt, cc.p)
+	} else {
+		cc.parkAfter = false
 	}
 	if cc.prepWait && !(cc.startBetween && cc.hold) {
 		atomic.StoreInt32(&h.prepWait, 1)
@@ -693,6 +776,9 @@ func (cc *conCase) runA(t *rapid.T) {
 		if cr.st.updParked {
 			cc.updParked = true
 			cc.parkedBatch = cr.st.parkedN
+			if !(cr.st.saveParked || cr.st.saverDone) {
+				cc.syncedEqApplied = a.cur.sm.GetSyncedIndex() == a.cur.sm.GetLastApplied()
+			}
 			if !cr.saverStarted {
 				cc.lo = cc.p
 				cc.startedWhileParked = true
@@ -704,6 +790,26 @@ func (cc *conCase) runA(t *rapid.T) {
 			}
 			cr.st.updParked = false
 			h.updRelease <- struct{}{}
+		}
+	}
+	if cc.parkAfter {
+		cr.wait("the apply worker to reach the node callback of p", func() bool { return cr.st.nodeParked || cr.st.idle })
+		if cr.st.nodeParked {
+			// p is applied, its task is not finished, no lock is held
+			cc.nodeParked = true
+			if !cr.saverStarted {
+				cc.lo = cc.p
+				cc.mode = "apply-held-mid-task"
+				cc.syncedEqApplied = a.cur.sm.GetSyncedIndex() == a.cur.sm.GetLastApplied()
+				cr.startSaver()
+			}
+			wasParked := cr.st.saveParked || cr.st.saverDone
+			cr.wait("the snapshot worker to reach the image write", func() bool { return cr.st.saveParked || cr.st.saverDone })
+			if cc.hi == 0 {
+				cc.hi = cc.p
+			}
+			cc.savedMidTask = !wasParked
+			h.nodeRelease <- struct{}{}
 		}
 	}
 	cr.waitIdle()
@@ -732,17 +838,20 @@ func (cc *conCase) runA(t *rapid.T) {
 	}
 	atomic.StoreInt32(&h.prepWait, 0)
 	atomic.StoreUint64(&h.parkIndex, 0)
+	atomic.StoreUint64(&h.nodeParkAt, 0)
 	cc.res = cr.st.res
 	// A simply continues
 	cr.feed(ents, cc.n, "rest")
 	cr.stop()
 	cr.poll()
 	cr.checkFailure()
+	cc.syncTasks = cr.syncTasks
 }
 
 func (cc *conCase) who() string {
-	return fmt.Sprintf("%s/%s %s p=%d a=%d b=%d k=%d parked=%t(batch %d) saver-seen-blocked=%t snapshot=%d",
-		cc.kind, cc.variant, cc.mode, cc.p, cc.a, cc.b, cc.k, cc.updParked, cc.parkedBatch, cc.sawBlocked, cc.ssIndex)
+	return fmt.Sprintf("%s/%s %s p=%d a=%d b=%d k=%d parked=%t(batch %d) saver-seen-blocked=%t held-mid-task=%t(p is %d of %d) sync-plan=%q sync-tasks=%d snapshot=%d",
+		cc.kind, cc.variant, cc.mode, cc.p, cc.a, cc.b, cc.k, cc.updParked, cc.parkedBatch, cc.sawBlocked, cc.nodeParked, cc.pPos, cc.pTaskLen,
+		cc.syncPlan, cc.syncTasks, cc.ssIndex)
 }
 
 // finish evaluates the worker's job, builds R and C and compares.
@@ -760,6 +869,12 @@ func (cc *conCase) finish(t *rapid.T) {
 		vfhelp.Fail(t, "consave-save-commit-error", "%s: commit of snapshot %d failed: %v", cc.who(), res.ss.Index, res.commitErr)
 	case res.committed && !res.valid:
 		vfhelp.Fail(t, "consave-save-invalid-snapshot", "%s: generated snapshot %d does not validate", cc.who(), res.ss.Index)
+	}
+	if cc.kind == kOnDisk && res.saved && !cc.req.Exported() && res.synced < res.ss.OnDiskIndex {
+		// IOnDiskStateMachine: only what Sync() covered survives a crash; concurrentSave
+		// prepares, syncs, then writes the record - the record must not promise more
+		vfhelp.Fail(t, "consave-ondisk-snapshot-ahead-of-synced-state", "%s: Save returned the snapshot record index %d OnDiskIndex %d, but the last Sync() of the user state machine that had returned by then covered entries up to %d only (%d Sync calls): after a crash the state machine reopens below the snapshot it is supposed to contain",
+			cc.who(), res.ss.Index, res.ss.OnDiskIndex, res.synced, atomic.LoadInt32(&h.syncCalls))
 	}
 	if res.committed {
 		cc.ssIndex = res.ss.Index
@@ -874,6 +989,13 @@ func (cc *conCase) finish(t *rapid.T) {
 			c.add(ents[ss:hi])
 		}
 		c.run()
+	}
+	if cc.variant == "stream" && len(c.cur.recovers) > 0 {
+		// node.recover: Recover, Sync, only then the received file is shrunk to a stub
+		if got := c.store.states[c.store.synced].Last; got < res.ss.OnDiskIndex {
+			vfhelp.Fail(t, "consave-ondisk-recovered-snapshot-not-synced", "%s: C recovered the streamed snapshot %d (OnDiskIndex %d) and shrunk it, the user state machine has synced up to %d only",
+				cc.who(), ss, res.ss.OnDiskIndex, got)
+		}
 	}
 	tr.c = c
 	cc.cInc = c.cur
@@ -1038,9 +1160,9 @@ func (cc *conCase) dupsNearSnapshot(dist uint64) map[expect]int {
 
 func (cc *conCase) canon() []byte {
 	var b bytes.Buffer
-	fmt.Fprintf(&b, "%v/%d/%v/%v/%t|%s|%s p=%d a=%d b=%d k=%d %t%t%t%t req=%d|ss=%d from=%d open=%d",
+	fmt.Fprintf(&b, "%v/%d/%v/%v/%t|%s|%s p=%d a=%d b=%d k=%d %t%t%t%t%t%s req=%d|ss=%d from=%d open=%d",
 		cc.kind, cc.limit, cc.env.cfg.SnapshotCompressionType, cc.env.cfg.EntryCompressionType, cc.env.cfg.OrderedConfigChange,
-		canonStream(cc.tr.meta), cc.variant, cc.p, cc.a, cc.b, cc.k, cc.startBetween, cc.hold, cc.parkUpdate, cc.prepWait, cc.req.Type,
+		canonStream(cc.tr.meta), cc.variant, cc.p, cc.a, cc.b, cc.k, cc.startBetween, cc.hold, cc.parkUpdate, cc.prepWait, cc.parkAfter, cc.syncPlan, cc.req.Type,
 		cc.ssIndex, cc.feedFrom, cc.openIdx)
 	return b.Bytes()
 }
@@ -1052,10 +1174,14 @@ func consaveRule() string {
 		"controls through parking hooks in the user SM: the request is dequeued between two Handle calls; the worker starts then (apply worker held " +
 		"until the image is being written, or racing), or once the user Update containing a generated entry p is parked inside the write lock (worker " +
 		"has to wait for StateMachine.mu), or after the apply worker went idle; PrepareSnapshot may linger until the apply worker is queued on the lock; " +
+		"the apply worker may also be held in the node callback of p (p applied, its task unfinished so lastApplied lags, no lock held) while the worker " +
+		"prepares and writes the snapshot; on-disk SMs get PeriodicSync tasks at generated places, in particular right before p's multi-entry task " +
+		"(syncedIndex == lastApplied when Save starts mid-task); " +
 		"k generated entries are applied while the worker is parked in the middle of SaveSnapshot; A then applies the rest. " +
 		"C (A restarted at the end of the log / a fresh StateMachine on A's snapshot / on-disk: the target of the streamed snapshot) recovers that snapshot " +
 		"and is fed the suffix (optionally an overlapping prefix); R is an uninterrupted single-goroutine replica. Oracle: the image PrepareSnapshot handed " +
-		"out, the session table, the membership and index/term in the snapshot are those of R at the snapshot index; C == R == A on user state, session table " +
+		"out, the session table, the membership and index/term in the snapshot are those of R at the snapshot index; an on-disk dummy snapshot record never " +
+		"promises more (OnDiskIndex) than the last completed Sync() of the user SM covered; C == R == A on user state, session table " +
 		"(hash and saved bytes), membership incl. ConfigChangeId, applied index/term at the end and on every per-entry outcome; C's user SM sees no entry at or " +
 		"below the snapshot index and no retry the session table has to answer. " +
 		"nontrivial = the snapshot was taken by a worker that had to wait for a parked Update, or >= 1 entry was applied while it was inside SaveSnapshot, " +
@@ -1106,7 +1232,7 @@ func runConsave(t *testing.T, unit string, fl conFlavour) {
 		}
 		nt := (underParked || duringSave > 0) && ndup > 0
 		if cc.kind == kOnDisk {
-			nt = (underParked || duringSave > 0) && (ccAccepted > 0 || underParked)
+			nt = (underParked || duringSave > 0 || cc.savedMidTask) && (ccAccepted > 0 || underParked || cc.savedMidTask)
 		}
 		labels := []string{"kind:" + cc.kind.String(), "variant:" + cc.variant, "mode:" + cc.mode, sizeLabel(len(tr.ents)),
 			fmt.Sprintf("snapshot-compression:%v", cc.env.cfg.SnapshotCompressionType == config.Snappy)}
@@ -1137,6 +1263,15 @@ func runConsave(t *testing.T, unit string, fl conFlavour) {
 		add(cc.openIdx > ss && ss > 0, "ondisk-open-index-above-snapshot")
 		add(cc.forcedDups > 0, "forced-dup-landings")
 		add(cc.req.Type == rsm.UserRequested, "user-requested")
+		add(cc.nodeParked, "apply-held-between-entries-of-task")
+		add(cc.savedMidTask, "snapshot-prepared-while-apply-held-mid-task")
+		add(cc.savedMidTask && cc.pTaskLen > 1 && cc.pPos < cc.pTaskLen, "snapshot-mid-task:p-not-last-of-multi-entry-task")
+		add(cc.syncTasks > 0, "periodic-sync-tasks")
+		add(cc.syncPlan != "", "plan:"+cc.syncPlan)
+		dummySave := cc.kind == kOnDisk && cc.variant != "stream"
+		add(dummySave && cc.syncedEqApplied && ss > 0, "ondisk-save-started:synced==lastApplied,apply-parked-in-p")
+		add(dummySave && cc.syncedEqApplied && cc.savedMidTask && ss >= cc.p, "NTS:ondisk-dummy-save-mid-task-with-synced==lastApplied")
+		add(dummySave && cc.syncedEqApplied && cc.savedMidTask && ss >= cc.p && cc.metaSS.OnDiskIndex > cc.a, "NTS:...and-OnDiskIndex-beyond-synced-index")
 		if cc.updParked && !(cc.startBetween && cc.hold) {
 			wantedBlocked++
 			if cc.sawBlocked {
